@@ -2,7 +2,10 @@
 
 package kernel
 
-import "runtime"
+import (
+	"runtime"
+	"unsafe"
+)
 
 // RaceBuild reports whether the race detector is compiled in.
 const RaceBuild = true
@@ -14,3 +17,6 @@ func raceOn()  { runtime.RaceEnable() }
 // serialising scheduler does not order the tasks it serialises.
 func RaceOff() { runtime.RaceDisable() }
 func RaceOn()  { runtime.RaceEnable() }
+
+func raceReleaseMerge(p *int) { runtime.RaceReleaseMerge(unsafe.Pointer(p)) }
+func raceAcquire(p *int)      { runtime.RaceAcquire(unsafe.Pointer(p)) }
